@@ -122,7 +122,12 @@ func (ce *ContentExtractor) ensureTitleInitialized() {
 		return
 	}
 
-	title := ce.Parser.Title()
+	// A page that opts out of markup extraction has no markup title either.
+	title := ""
+	if !ce.Parser.OptOut() {
+		title = ce.Parser.Title()
+	}
+
 	if title != "" {
 		ce.candidateTitles = append(ce.candidateTitles, title)
 	}
